@@ -8,6 +8,7 @@ import (
 	"errors"
 	"net"
 	"sync"
+	"sync/atomic"
 
 	reuse "github.com/libp2p/go-reuseport"
 
@@ -27,6 +28,10 @@ type PFCPNode struct {
 	pConnDone chan string
 	// map of existing connections
 	pConns sync.Map
+	// number of PFCPConn created so far; each of them reports its exit on pConnDone exactly once
+	pConnsCreated atomic.Int64
+	// closed when handleNewPeers has returned: no PFCPConn is created after that
+	newPeersDone chan struct{}
 	// upf
 	upf *upf
 	// metrics for PFCP messages and sessions
@@ -49,13 +54,14 @@ func NewPFCPNode(upf *upf) *PFCPNode {
 	ctx, cancel := context.WithCancel(context.Background())
 
 	return &PFCPNode{
-		ctx:        ctx,
-		cancel:     cancel,
-		PacketConn: conn,
-		done:       make(chan struct{}),
-		pConnDone:  make(chan string, 100),
-		upf:        upf,
-		metrics:    metrics,
+		ctx:          ctx,
+		cancel:       cancel,
+		PacketConn:   conn,
+		done:         make(chan struct{}),
+		pConnDone:    make(chan string, 100),
+		newPeersDone: make(chan struct{}),
+		upf:          upf,
+		metrics:      metrics,
 	}
 }
 
@@ -80,6 +86,8 @@ func (node *PFCPNode) tryConnectToN4Peers(lAddrStr string) {
 }
 
 func (node *PFCPNode) handleNewPeers() {
+	defer close(node.newPeersDone)
+
 	lAddrStr := node.LocalAddr().String()
 	logger.PfcpLog.Infoln("listening for new PFCP connections on", lAddrStr)
 
@@ -114,6 +122,8 @@ func (node *PFCPNode) Serve() {
 	go node.handleNewPeers()
 
 	shutdown := false
+	// number of PFCPConn exits received from pConnDone
+	pConnsEnded := int64(0)
 
 	for !shutdown {
 		select {
@@ -125,6 +135,8 @@ func (node *PFCPNode) Serve() {
 				return false
 			})
 		case rAddr := <-node.pConnDone:
+			pConnsEnded++
+
 			node.pConns.Delete(rAddr)
 			logger.PfcpLog.Infoln("removed connection to", rAddr)
 		case <-node.ctx.Done():
@@ -137,27 +149,20 @@ func (node *PFCPNode) Serve() {
 				logger.PfcpLog.Errorln("error closing PFCPNode conn", err)
 			}
 
-			// Clear out the remaining pconn completions
-		clearLoop:
-			for {
-				select {
-				case rAddr, ok := <-node.pConnDone:
-					{
-						if !ok {
-							// channel is closed, break
-							break clearLoop
-						}
-						node.pConns.Delete(rAddr)
-						logger.PfcpLog.Infoln("removed connection to", rAddr)
-					}
-				default:
-					// nothing to read from channel
-					break clearLoop
-				}
-			}
+			// Every PFCPConn shuts down on ctx.Done() unless it has done so before, and reports
+			// its exit exactly once, after it removed its sessions. Wait for all of them: the
+			// channel must stay open while a PFCPConn may still send on it, and the process
+			// must not exit while sessions are being removed. The closed socket ends
+			// handleNewPeers; no PFCPConn is created after it has returned.
+			newPeersDone := node.newPeersDone
 
-			if len(node.pConnDone) > 0 {
-				for rAddr := range node.pConnDone {
+			for newPeersDone != nil || pConnsEnded < node.pConnsCreated.Load() {
+				select {
+				case <-newPeersDone:
+					newPeersDone = nil
+				case rAddr := <-node.pConnDone:
+					pConnsEnded++
+
 					node.pConns.Delete(rAddr)
 					logger.PfcpLog.Infoln("removed connection to", rAddr)
 				}
